@@ -284,6 +284,7 @@ def run(ctx):
         ctx.run_shards(shard, [(rk, lo, hi, ctx.tier) for lo, hi in runner.shards(len(progs), 32)])
         ctx.part.spaces[f"programs:{rk}"]["cardinality"] = len(progs)
     ctx.part.sample({"programs": [progs[i][:2] for i in (0, len(progs) // 3, len(progs) // 2, len(progs) - 1)]})
+    _pairhist.run(ctx, __name__)
     ctx.part.sample({"type_names": TYPE_NAMES})
     ctx.rule = ("every well-typed term (by the reference type checker) with an operator, function, macro or conversion at the root over the leaf alphabet (two literals + one bound variable per CEL kind), "
                 "plus hand-typed programs (macros on map receivers keeping all/some/no keys; string functions on non-ASCII texts and patterns); then " + ("every such term" if ctx.thorough else "one representative per (root, result type)") + " nested one level (operand of every operator accepting its kind, list element, map value, ?: branch, macro body, dyn, size, string); "
@@ -291,8 +292,23 @@ def run(ctx):
     ctx.assumptions = ["the reference type checker covers the signature of mc/gen.py only; terms it cannot type are not enumerated here (C03/C04 still run them)"]
 
 
+# ---- pair histories (mc/pairhist.py): a term alone and after every other term; the outcome carries the Python class ----
+PH_TEXTS = ["1 + 1", "1u + 1u", "1.5 + 2.5", "1.5 * 2.0", "-1.5", '"a" + "b"', 'b"a" + b"b"', "[1] + [2]", 'duration("1s") + duration("1s")', 'duration("2s") - duration("1s")',
+            'timestamp("2020-01-01T00:00:00Z") + duration("1s")', 'timestamp("2020-01-01T00:00:01Z") - timestamp("2020-01-01T00:00:00Z")', 'duration("1.5s").getMilliseconds()',
+            'timestamp("2020-01-01T00:00:00Z").getFullYear()', "size([1])", 'size("a")', "int(1.5)", "uint(1)", "double(1)", 'string(1)', 'bytes("a")', "1 == 1", "1 < 2", "!true", "true && true",
+            "true ? 1 : 2", "[1, 2].map(x, x + 1)", "[1, 2].filter(x, x > 1)", "[1, 2].exists(x, x > 1)", "[1, 2].exists_one(x, x > 1)", '"ab".matches("a")', '"ab".contains("a")',
+            "1 in [1]", '{"a": 1}.a', "[1.5][0]", "type(1)", "type(1.5 + 2.5) == double", 'type("a" + "b") == string', "type(1 + 1) == int", 'type(duration("1s").getMilliseconds()) == int',
+            "dyn(1)", "7 / 2", "-7 / 2", "7 % 2", "7u / 2u"]
+from .. import pairhist as _pairhist  # noqa: E402
+
+_pairhist.install(globals(), PH_TEXTS, with_class=True)
+
+
 def replay(w):
     wit = w["witness"]
+    if wit.get("space") == "pairhist":
+        from .. import pairhist
+        return pairhist.replay(w)
     acts = gen.activations()
     o = celrun.evaluate(wit["runner"], wit["expr"], dict(acts["right"]))
     print(wit["expr"], "expected type", wit["type"], "->", outcome.short(o), "class", o[3] if o[0] == "V" else None)
